@@ -182,6 +182,12 @@ class Item:
             return r.choice([T('opt', T('box', me)), T('vec', me), T('box', T('opt', me)) if False else T('vec', me)])
         if self.lifetime and c < 0.55:
             return T('lref_str')
+        if c < 0.62:
+            # containers mixing PhantomData with real data: only the marker itself may be erased
+            ph = T('ph', r.choice(P) if P else T('u', n=8))
+            real = T('u', n=r.choice(texpr.W))
+            return r.choice([T('tup', real, ph), T('tup', ph, real, T('bool')), T('arr', T('tup', real, ph), n=2), T('opt', T('tup', ph, real)),
+                             T('vec', T('tup', real, ph)), T('tup', T('tup', ph), real)])
         for _ in range(40):
             t = texpr.sized(r, depth)
             if t.can_encode():
@@ -459,6 +465,22 @@ class Item:
         body, vals = self.fields_value(r, self.shape, self.fields, env, depth)
         return (f'{self.path_text()}{turbofish}{body}', 'comp ' + plist(vals, lambda nv: popt(nv[0], hexs) + ' ' + nv[1]))
 
+    def reaches_encoded_as(self, seen=None):
+        """does a value of this item contain (transitively) a non-skipped #[codec(encoded_as)] member"""
+        seen = seen if seen is not None else set()
+        if self.num in seen:
+            return False
+        seen.add(self.num)
+        for f in self.all_fields():
+            if f.skip:
+                continue
+            if f.encoded_as:
+                return True
+            for sub in f.ty.subterms():
+                if isinstance(sub, Adt) and sub.item.reaches_encoded_as(seen):
+                    return True
+        return False
+
     def has_values(self):
         if self.is_enum:
             return any(not v.skip for v in self.variants)
@@ -579,7 +601,8 @@ def main():
                 if v not in seenv:
                     seenv.add(v)
                     vals.append((e, v))
-        L.append(f'    let mut s = format!("derive {k} {{}} {it.decl_proto(args)} {{}} {{}} {{}} {len(vals)}", cfg!(feature = "docs") as u8, '
+        ea = int(it.reaches_encoded_as() or any(isinstance(sub, Adt) and sub.item.reaches_encoded_as() for a_ in args for sub in a_.subterms()))
+        L.append(f'    let mut s = format!("derive {k} {{}} {ea} {it.decl_proto(args)} {{}} {{}} {{}} {len(vals)}", cfg!(feature = "docs") as u8, '
                  'crate::tinfo_text(&m, table), id, pregistry(&pr));')
         for e, v in vals:
             L.append(f'    {{ let v: X = {e}; s.push_str(&format!(" {v} {{}}", hex(&v.encode()))); }}')
